@@ -1,2 +1,4 @@
 ; direction of a badger iterator (true = created with Reverse)
 (declare-fun itrev (Int) Bool)
+; itemkey(item): the key of the entry a badger *Item stands for (Txn.Get)
+(declare-fun itemkey (Int) Str)
